@@ -122,10 +122,12 @@ func (c *Cluster) handleShareFetch(creq *clientReq, w *watchShareFetch) (kmsg.Re
 		resp.Topics[idx].Partitions = append(resp.Topics[idx].Partitions, sp)
 		return &resp.Topics[idx].Partitions[len(resp.Topics[idx].Partitions)-1]
 	}
+	var ackErrs []shareAckErr // kept for the watcher: the response is rebuilt when a parked fetch completes
 	onAck := func(tid uuid, p int32, ec int16) {
 		if ec == 0 {
 			return // success - fetch phase handles the response entry
 		}
+		ackErrs = append(ackErrs, shareAckErr{tid, p, ec})
 		donep(tid, p, 0).AcknowledgeErrorCode = ec
 	}
 	// onAckNotLeader routes a leader-mismatch on a piggybacked ack to
@@ -137,6 +139,7 @@ func (c *Cluster) handleShareFetch(creq *clientReq, w *watchShareFetch) (kmsg.Re
 	// migrates the cursor via the fetch-side NOT_LEADER path if the
 	// same partition was also being fetched.
 	onAckNotLeader := func(tid uuid, p int32, _ *partData) {
+		ackErrs = append(ackErrs, shareAckErr{tid, p, kerr.NotLeaderForPartition.Code})
 		donep(tid, p, 0).AcknowledgeErrorCode = kerr.NotLeaderForPartition.Code
 	}
 
@@ -151,6 +154,11 @@ func (c *Cluster) handleShareFetch(creq *clientReq, w *watchShareFetch) (kmsg.Re
 		session = sgs.sessions[sessionKey]
 		if session == nil || session != w.session {
 			return resp, nil
+		}
+		// The acks were processed when the request arrived; their failures
+		// belong into this (rebuilt) response as well.
+		for _, e := range w.ackErrs {
+			donep(e.tid, e.p, 0).AcknowledgeErrorCode = e.ec
 		}
 	} else if req.ShareSessionEpoch == -1 {
 		// Session close: process piggybacked acks, release remaining
@@ -454,6 +462,7 @@ func (c *Cluster) handleShareFetch(creq *clientReq, w *watchShareFetch) (kmsg.Re
 				creq:    creq,
 				session: session,
 				ackTs:   ackTs,
+				ackErrs: ackErrs,
 			}
 			wsf.cb = func() {
 				select {
